@@ -80,6 +80,9 @@ pub fn abort_all() {
 }
 /// to be called by a worker thread before its first shared access
 pub fn register(tid: usize) { TID.with(|t| t.set(Some(tid))); }
+/// lets the calling worker run unscheduled (its accesses pass straight through, unlogged) until `resume`
+pub fn suspend() -> Option<usize> { TID.with(|t| t.replace(None)) }
+pub fn resume(tid: Option<usize>) { TID.with(|t| t.set(tid)); }
 /// to be called by a worker thread after its last shared access
 pub fn finished(tid: usize) {
     TID.with(|t| t.set(None));
